@@ -714,6 +714,11 @@ func TestWorker(t *testing.T) {
 				out.Flush()
 				os.Exit(3) // the orchestrator starts a new worker after this run
 			}
+			if n%200 == 0 && max == 0 && runtime.NumGoroutine() > 15000 {
+				// goroutines of abandoned bubbles pile up: hand over to a fresh process
+				out.Flush()
+				os.Exit(3)
+			}
 		}
 		_ = enc.Encode(&workerLine{Type: "done"})
 	case "exec", "replay":
